@@ -16,6 +16,15 @@ def sortNat (l : List Nat) : List Nat := l.foldr insertSorted []
 
 def findEp (l : List Ep) (id : Int) : Option Ep := l.find? (fun e => (e.id : Int) == id)
 
+/-- one list, the ids it yielded: (agrees with the model, every pick in the top tier, every member of the tier reached) -/
+def judgePrio (eps : List Ep) (picked : List Int) : Bool × Bool × Bool :=
+  let tier := topTier eps
+  let want : List Int := if tier.isEmpty then [-1] else (sortNat (tier.map (·.id))).map Int.ofNat
+  let safe := picked.all (fun p => if p < 0 then p == -1 && (routable eps).isEmpty
+                                   else match findEp eps p with | some e => inTopTier eps e | none => false)
+  let live := (eps.filter (inTopTier eps)).all (fun e => picked.contains (e.id : Int))
+  (picked == want, safe, live)
+
 def handle (j : Json) : IO Unit := do
   let case := jnat (jget j "case")
   let kind := jstr (jget j "kind")
@@ -36,6 +45,22 @@ def handle (j : Json) : IO Unit := do
       (if !safe then "prio-outside-top-tier" else if !live then "prio-member-never-picked" else "")
       (if !safe then s!"picked {picked}, top tier {want}" else if !live then s!"picked only {picked} of top tier {want}" else "")
       (toJson want)
+  | "prioseq" =>
+    -- one selector, a history of lists: the selection on each list is judged as if the selector had never seen another
+    -- (C06_priority_top_tier / _live quantify over the list alone: the strategy keeps nothing from one call to the next)
+    let lists := (jarr (jget j "lists")).map parseEps
+    let picked := (jarr (jget impl "picked")).map jintList
+    let verdicts := (lists.zip picked).map (fun (l, p) => judgePrio l p)
+    let agree := verdicts.all (·.1) && picked.length == lists.length
+    let safe := verdicts.all (·.2.1)
+    let live := verdicts.all (·.2.2)
+    let bad := ((lists.zip picked).zip (List.range lists.length)).find? (fun ((l, p), _) => let v := judgePrio l p; !(v.2.1 && v.2.2))
+    emit case agree (safe && live) s!"prio.history.{lists.length}"
+      (if !safe then "prio-outside-top-tier" else if !live then "prio-member-never-picked" else "")
+      (match bad with
+       | some ((l, p), i) => s!"list {i} of the history {lists.map (fun l => l.map (fun e => (e.id, e.prio, e.status)))}: picked {p}, top tier {(topTier l).map (·.id)}"
+       | none => "")
+      Json.null
   | "rr" =>
     let lists := (jarr (jget j "lists")).map parseEps
     let seq := jintList (jget impl "seq")
